@@ -9,6 +9,7 @@ import (
 
 	ipfslog "berty.tech/go-ipfs-log"
 	"berty.tech/go-ipfs-log/iface"
+	"berty.tech/go-orbit-db/verifhook"
 	cid "github.com/ipfs/go-cid"
 	"github.com/libp2p/go-libp2p/core/event"
 	"github.com/libp2p/go-libp2p/p2p/host/eventbus"
@@ -204,6 +205,8 @@ func (r *replicator) processOne(ctx context.Context, wg *sync.WaitGroup) error {
 		r.logger.Warn("process item ended", zap.Error(err))
 	}
 
+	verifhook.Point("repl.beforeDone", e)
+
 	// mark this process has done
 	r.processEntryDone(e)
 	return nil
@@ -317,6 +320,8 @@ func (r *replicator) generateEmitter(bus event.Bus) error {
 }
 
 func (r *replicator) waitForProcessSlot(ctx context.Context) (e processItem, err error) {
+	verifhook.Point("repl.beforeSlot", nil)
+
 	if err := r.sem.Acquire(ctx, 1); err != nil {
 		return nil, fmt.Errorf("failed to acquire process slot: %w", err)
 	}
@@ -328,6 +333,8 @@ func (r *replicator) waitForProcessSlot(ctx context.Context) (e processItem, err
 	r.tasks[e.GetHash()] = stateFetching
 
 	r.muProcess.Unlock()
+
+	verifhook.Point("repl.afterDequeue", e)
 	return
 }
 
